@@ -178,8 +178,15 @@ class Runner:
         CA = self.pm_types.ContextAssociation
         amap = {'Assoc': CA.ASSOCIATED, 'Dis': CA.DISASSOCIATED, 'No': CA.NO_ASSOCIATION, 'Pre': CA.PRE_ASSOCIATION}
         proposals = []
-        for handle, assoc, n in op['proposals']:
-            st = csc.mk_proposed_context_object(op['dh'], self.real_handle(handle))
+        self.resolved = []
+        for handle, assoc, n, *rest in op['proposals']:
+            dh = rest[0] if rest else op['dh']
+            if isinstance(handle, list):        # ['nth', i]: the i-th existing context state of that descriptor
+                cands = sorted((self.canon.h(s.Handle) for s in self.pm.context_states.objects if s.DescriptorHandle == dh),
+                               key=lambda c: (len(c), c))
+                handle = cands[handle[1] % len(cands)] if cands else 'no_such_state'
+            self.resolved.append(handle)
+            st = csc.mk_proposed_context_object(dh, self.real_handle(handle))
             if assoc is not None:
                 st.ContextAssociation = amap[assoc]
             mdibrun.set_payload(st, n, self.pm_types)
@@ -378,6 +385,7 @@ class Runner:
             self.clock.advance(op.get('dt', 0.125))
             n0 = len(self.w.net.log)
             res = 'ok'
+            self.resolved = None
             try:
                 {'state': self.do_state, 'ctx': self.do_ctx, 'location': self.do_location,
                  'descr': self.do_descr, 'setctx': self.do_setctx, 'reseq': self.do_reseq, 'reload': self.do_reload,
@@ -416,6 +424,8 @@ class Runner:
                     for ex in todo:
                         delivered.append(self.deliver(ex))
             step = {'res': res, 'prov': delta(prev_p, cur_p), 'reports': reports, 'delivered': delivered}
+            if self.resolved is not None:
+                step['resolved'] = self.resolved
             if self.cm is not None:
                 cur_c = mdibrun.snapshot(self.cm, self.canon)
                 step['cons'] = delta(prev_c, cur_c)
